@@ -173,16 +173,16 @@ def cmdSolve (a : Args) : String :=
   let dr := mkDraws mutA tournA
   -- run generation by generation to report the per-generation hall of fame and population references
   let rec go (g fuel : Nat) (s : St Cell) (hofs pops probs : List String) :
-      Except Err (St Cell × List String × List String × List String) :=
+      Except String (St Cell × List String × List String × List String) :=
     match fuel with
     | 0 => .ok (s, hofs, pops, probs)
     | fuel + 1 =>
       match generation cellParams cfg dr g s with
-      | .error er => .error er
+      | .error er => .error s!"err {er} gen={g}"
       | .ok s' => go (g + 1) fuel s' (hofs ++ [showHof s'.heap s'.hof])
                     (pops ++ [joinOr "," (s'.pop.map fun e => toString e.circ)]) (probs ++ [showProbs s'.transProbs])
   match go 0 cfg.nStop (initState cfg tp initCells) [] [] [] with
-  | .error er => errS er
+  | .error msg => msg
   | .ok (s, hofs, pops, probs) =>
     match solve cellParams cfg dr tp initCells with
     | .error er => errS er
